@@ -53,6 +53,12 @@ def shapesOk (norm : Norm) (A X W : Mat α) (b : Option (List α)) : Bool :=
   (match b with | some b => b.length == W.c | none => true) &&
   (match norm with | .right | .both => A.r == A.c | _ => true)
 
+/-- the documented network: the documented layers composed, one adjacency per layer (`none`: some shape does not fit) -/
+def gnnForward : List (Layer α × Mat α) → Mat α → Option (Mat α)
+  | [], h => some h
+  | (l, A) :: rest, h =>
+    if shapesOk l.cfg.norm A h l.W l.b then gnnForward rest (forward l.cfg A h l.W l.b) else none
+
 /-- Jacobian entry `∂ out_l / ∂ s_k` of an activation on a row -/
 def jac (a : Act) (c : Nat) (s : Nat → α) (l k : Nat) : α :=
   match a with
